@@ -277,12 +277,13 @@ func (w *worker[T, JobType]) processNextJob() error {
 		return ErrFailedToCastJob
 	}
 
-	if j.IsClosed() {
+	// a job that was cancelled while it was queued is skipped; the transition
+	// to processing is atomic with that test
+	if !j.startProcessing() {
 		return nil
 	}
 
 	w.curProcessing.Add(1)
-	j.changeStatus(processing)
 	j.setAckId(ackId)
 
 	// then job will be process by the processSingleJob function inside spawnWorker
